@@ -121,6 +121,8 @@ process_data(struct video_filter_s* self,
                         .shape = shape,
                         .timestamps = in->timestamps,
                     };
+                    // The queue's memory is reused: start from zero.
+                    memset((*accumulator)->data, 0, bytes_of_image(&shape));
                     CHECK(accumulate(*accumulator, in));
                     *frame_count = 1;
                 }
